@@ -20,8 +20,4 @@ broadcast use {vstd::std_specs::hash::group_hash_axioms, axh::axiom_uuid_key_mod
 //@include regions/taskdb_sync_wrapper.rs
 //@include lemmas/history.rs
 // ---- functions these properties depend on that are NOT verified (outside the verifier's reach): hashed; a change -> UNDECIDED
-//@watch C12 :: src/taskdb/snapshot.rs :: impl SnapshotTasks :: fn encode
-//@watch C12 :: src/taskdb/snapshot.rs :: impl SnapshotTasks :: fn decode
-//@watch C12 :: src/taskdb/snapshot.rs :: impl Serialize for SnapshotTasks
-//@watch C12 :: src/taskdb/snapshot.rs :: impl<'de> Visitor<'de> for TaskDbVisitor
 //@include prelude/tail.rs
